@@ -263,7 +263,7 @@ def trace_slices(trace_path):
     return out
 
 
-def validate(ctx, trace_path, cfg, props, desc, behs=None, module="UdpNat", own=None, timeout=1200):
+def validate(ctx, trace_path, cfg, props, desc, behs=None, module="UdpNat", own=None, timeout=1200, confirm=None):
     """Runs UdpNatTrace with the given property subset.  Every behaviour whose observations break a property is
     reported as a violation (signature: module + property).  Returns the RESULT dict."""
     nlines = sum(1 for ln in open(trace_path) if ln.strip())
@@ -284,13 +284,40 @@ def validate(ctx, trace_path, cfg, props, desc, behs=None, module="UdpNat", own=
     if res["bads"]:
         sl = trace_slices(trace_path)
         seen = set()
+        tried = {}
         for b in sorted(res["bads"], key=lambda x: x["line"]):
             if b["prop"] in seen:
                 continue          # one report per property and run; the others are the same kind
-            seen.add(b["prop"])
             start, rows = sl[b["trace"] - 1]
             upto = rows[: b["line"] - start + 1]
             beh = behs[b["trace"] - 1] if behs and b["trace"] - 1 < len(behs) else None
+            if confirm is not None and beh is not None:
+                # verdict policy: a rejection seen in a batch run on real sockets counts only when the behaviour, executed again on
+                # its own, is rejected for the same property (a datagram the kernel dropped or a starved process under load is not
+                # the code's doing); up to three rejected behaviours per property are tried
+                if tried.get(b["prop"], 0) >= 3:
+                    continue
+                tried[b["prop"]] = tried.get(b["prop"], 0) + 1
+                again = False
+                for attempt in (1, 2):
+                    for tpath in confirm(beh, "%s-%d-%d" % (b["prop"], tried[b["prop"]], attempt)):
+                        ok2, r2 = vlib.validate_traces(ctx, "UdpNatTrace", "UdpNatTraceRun.cfg", tpath, timeout=timeout,
+                                                       extra_files={"UdpNatTraceRun.cfg": c})
+                        res2 = parse_result(r2)
+                        if res2 is not None and ok2 and any(x["prop"] == b["prop"] for x in res2["bads"]):
+                            again = True
+                            break
+                    if again:
+                        break
+                if not again:
+                    msg = "%s was rejected for behaviour %d in the batch run (%s) but not when that behaviour was executed again alone (2 x 2 runs)" % (
+                        b["prop"], b["trace"], desc)
+                    ctx.notes.append("not reproduced: " + msg)
+                    if not hasattr(ctx, "_udp_unconfirmed"):
+                        ctx._udp_unconfirmed = []
+                    ctx._udp_unconfirmed.append(msg)
+                    continue
+            seen.add(b["prop"])
             ctx.violation({"module": module, "kind": b["prop"]},
                           "%s [%s, behaviour %d, trace line %d; %d behaviour(s) rejected by this run]" % (
                               WHAT.get(b["prop"], b["prop"]), desc, b["trace"], b["line"], len(bad_traces)),
@@ -403,7 +430,13 @@ def real_families(ctx, name, n_main, n_def, props, seed_off=0, prom=False, want=
         desc = "real sockets, %s validator%s" % ({"main": "loopback+public", "focus": "loopback+public (focused family: failing sends, DNS + other host)",
                                                    "switch": "loopback+public (target switches inside one association: same-length address headers, other port / IP / name)"}.get(
             fam, "default (RequirePublicIP), host-name destinations"), ", Prometheus collectors" if prom else "")
-        validate(ctx, trace, tracecfg, props, desc, behs)
+        def again(beh, tag):
+            out = []
+            for listener in ("manager", "raw"):
+                t2, _ = run_real(ctx, [beh], "%s-%s-confirm-%s-%s" % (name, fam, tag, listener), procs=1, validator=validator, listener=listener)
+                out.append(t2)
+            return out
+        validate(ctx, trace, tracecfg, props, desc, behs, confirm=again)
         summary_violations(ctx, sums, behs, desc, set(want))
         return (fam, behs, trace, sums)
 
@@ -417,6 +450,9 @@ def real_families(ctx, name, n_main, n_def, props, seed_off=0, prom=False, want=
                 errs.append(e)
     if errs:
         raise errs[0]
+    un = getattr(ctx, "_udp_unconfirmed", [])
+    if un and not ctx.violations and not ctx.known_matched:
+        raise vlib.Inconclusive(un[0])
     return res
 
 
